@@ -29,7 +29,7 @@ Definition fresh : pstate :=
 (* everything the model takes from outside *)
 Record oracles := {
   o_score : list pinfo -> Q;             (* ProteinScore.calculate_score, tabulated *)
-  o_cutoff : list Q -> Q;                (* calc_post_err_prob_cutoff, tabulated (its own model: C17) *)
+  o_cutoff : list Q -> Q -> Q;           (* calc_post_err_prob_cutoff (PEPs, PSM-level FDR), tabulated (its own model: C17) *)
   o_pow10neg : Q -> Q;
   o_md5 : str -> str;
   o_split : graph -> list graph
@@ -55,13 +55,13 @@ Definition group_proteins (g : grouping_kind) (l : pil) : res pgs :=
 
 (* one pass (first pass or rescue pass) after the groups are fixed *)
 Definition one_pass (me : method) (o : oracles) (st : pstate) (s : pgs) (l : pil) (rescue : bool)
-           (keep_all : bool) (pi1 pi2 : list nat)
+           (keep_all : bool) (psm_cut : Q) (pi1 pi2 : list nat)
   : pstate * res (list (list pinfo) * list row) :=
   let cfg := {| sc_razor := m_razor me; sc_shared := m_shared me; sc_counts := ps_counts st |} in
   match collect cfg (o_md5 o) s rescue l with
   | Raise e => (st, Raise e)
   | Ok (infos, peps) =>
-    let st1 := {| ps_seen := ps_seen st; ps_counts := ps_counts st; ps_pep_cutoff := Some (o_cutoff o peps);
+    let st1 := {| ps_seen := ps_seen st; ps_counts := ps_counts st; ps_pep_cutoff := Some (o_cutoff o peps psm_cut);
                   ps_rescue_cutoff := ps_rescue_cutoff st; ps_obsolete := ps_obsolete st |} in
     (* MultPEPScore.optimize_hyperparameters indexes an empty array when no group has any evidence *)
     if is_mult (m_score me) && no_evidence infos then (st1, Raise IndexError) else
@@ -90,7 +90,7 @@ Definition one_pass (me : method) (o : oracles) (st : pstate) (s : pgs) (l : pil
     end
   end.
 
-Definition run (me : method) (o : oracles) (st : pstate) (l : pil) (keep_all : bool) (threshold : Q)
+Definition run (me : method) (o : oracles) (st : pstate) (l : pil) (keep_all : bool) (threshold psm_cut : Q)
            (pis : list (list nat)) : pstate * res (list row) :=
   match group_proteins (m_grouping me) l with
   | Raise e => (st, Raise e)
@@ -99,7 +99,7 @@ Definition run (me : method) (o : oracles) (st : pstate) (l : pil) (keep_all : b
     let st0 := {| ps_seen := ps_seen st; ps_counts := if m_razor me then Some l else ps_counts st;
                   ps_pep_cutoff := ps_pep_cutoff st; ps_rescue_cutoff := ps_rescue_cutoff st;
                   ps_obsolete := ps_obsolete st |} in
-    match one_pass me o st0 s0 l false keep_all (nth 0 pis []) (nth 1 pis []) with
+    match one_pass me o st0 s0 l false keep_all psm_cut (nth 0 pis []) (nth 1 pis []) with
     | (st1, Raise e) => (st1, Raise e)
     | (st1, Ok (infos1, rows1)) =>
       if negb (is_rescued (m_grouping me)) then (st1, Ok rows1)
@@ -115,7 +115,7 @@ Definition run (me : method) (o : oracles) (st : pstate) (l : pil) (keep_all : b
             let oi := map (fun i => nth i infos1 []) oidx in
             let st2 := {| ps_seen := ps_seen st1; ps_counts := ps_counts st1; ps_pep_cutoff := ps_pep_cutoff st1;
                           ps_rescue_cutoff := Some rc; ps_obsolete := Some (og, oi) |} in
-            match one_pass me o st2 s2 l true keep_all (nth 2 pis []) (nth 3 pis []) with
+            match one_pass me o st2 s2 l true keep_all psm_cut (nth 2 pis []) (nth 3 pis []) with
             | (st3, Raise e) => (st3, Raise e)
             | (st3, Ok (_, rows2)) => (st3, Ok rows2)
             end
